@@ -12,6 +12,10 @@ PROPS = {
              "Seeded search over client interleavings at every simulated lock acquire/release of the real util.LockedMap implementations (single, sharded 2..64, deep sharded) and util.Locked; every recorded history is checked by porcupine against a sequential map/value model and Len() is compared with the key count after all clients finished. A clean batch is evidence over the sampled schedules, not proof.",
              "trusted: porcupine v1.3.0, the sequential model in harness/utilh/c32.go, simrt lock replacements having sync.Mutex/RWMutex semantics; Len() is only checked at quiescence (as the statement says); two genuine defects are listed in known_findings.json",
              SIM + "; linearizability checking of recorded histories with porcupine"),
+    "C33": P("utilh",
+             "Seeded search over interleavings of job goroutines, producer, canceller and fake-clock sleeps of the real job workers and BatchWork; oracle over the recorded history: every accepted job ran exactly once, Wait returned after all of them, the returned error is the first in kernel order, BatchWork visited every index once batch by batch with pref before the jobs; bounded liveness (returns within the step budget).",
+             "trusted: harness bookkeeping of job start/end by kernel sequence numbers; x/sync/semaphore runs as shipped",
+             SIM + "; history oracle (exactly-once, ordering, first-error, bounded liveness)"),
 }
 
 NOT_APPLICABLE = {
